@@ -86,6 +86,26 @@ struct SimCore
         return c.calls.back();
     }
 
+    // The user's integrand integrates something itself (same integrator, same types, another number of
+    // dimensions) before it looks at its own point: called first thing on entry, so that everything the
+    // integrand reads and logs afterwards is what the library still holds for the outer point.
+    static void maybe_nest(Ctx& c, std::vector<T> const& x, std::uint32_t channel)
+    {
+        if (!c.nested || c.in_nested || c.nested_hook == nullptr) return;
+        long double xl[MAXD];
+        std::size_t const n = std::min<std::size_t>(x.size(), MAXD);
+        for (std::size_t i = 0; i != n; ++i) xl[i] = x[i];
+        std::uint64_t const h = hash_point(xl, n, channel);
+        if ((mix2(h, 4242) % 8) != 0) return;
+        c.in_nested = true;
+        bool const counting = c.counting;
+        c.counting = false;
+        c.nested_hook(c.nested_arg);
+        c.counting = counting;
+        c.in_nested = false;
+        ++c.nested_done;
+    }
+
     // coordinate handed to projector.add for distribution d in "probe" mode
     static T probe_coordinate(DistSpec const& s, std::uint64_t h, bool y)
     {
@@ -167,18 +187,6 @@ struct SimCore
         std::uint64_t const h = hash_point(xl, n, channel);
         int const pk = poison_kind(c, h);
 
-        if (c.nested && !c.in_nested && c.nested_hook != nullptr && (mix2(h, 4242) % 8) == 0)
-        {
-            // the user's integrand integrates something itself (same integrator, same types)
-            c.in_nested = true;
-            bool const counting = c.counting;
-            c.counting = false;
-            c.nested_hook(c.nested_arg);
-            c.counting = counting;
-            c.in_nested = false;
-            ++c.nested_done;
-        }
-
         bool ask = weight_is_free;
         if (!weight_is_free)
         {
@@ -248,11 +256,32 @@ struct SimCore
         std::uint32_t const off_add = static_cast<std::uint32_t>(c.adds.size());
         std::uint32_t n_add = 0;
 
-        if (proj != nullptr && !skip_adds)
+        // a poisoned distribution value may come on top of a finite one for the same position (an
+        // integrand that adds several contributions per point, one of which is not finite): the finite
+        // one stays in both twin runs
+        bool const double_add = (pk == POISON_DIST) && (mix2(h, 777) & 1) != 0;
+
+        if (proj != nullptr && (!skip_adds || double_add))
         {
             for (std::size_t d = 0; d != p.dists.size(); ++d)
             {
                 DistSpec const& s = p.dists[d];
+                if (double_add && s.proj != 2)
+                {
+                    long double lx, ly;
+                    script_project(p, d, xl, n, h, lx, ly);
+                    AddRec a0;
+                    a0.dist = static_cast<std::uint32_t>(d);
+                    a0.two_d = s.two_d != 0;
+                    a0.x = static_cast<T>(lx);
+                    a0.y = static_cast<T>(ly);
+                    a0.value = f;
+                    c.adds.push_back(a0);
+                    ++n_add;
+                    if (s.two_d) proj->add(d, static_cast<T>(lx), static_cast<T>(ly), f);
+                    else proj->add(d, static_cast<T>(lx), f);
+                }
+                if (skip_adds) continue;
                 AddRec a;
                 a.dist = static_cast<std::uint32_t>(d);
                 a.two_d = s.two_d != 0;
@@ -336,6 +365,7 @@ struct PlainFunc : SimCore<T>
     {
         Ctx& c = ctx();
         if (c.in_nested) return T(0.5);   // the inner integration of a nesting integrand
+        SimCore<T>::maybe_nest(c, pt.point(), 0);
         CallRec& r = this->begin_call(c);
         r.entered = true;
         r.entries = 1;
@@ -357,6 +387,7 @@ struct VegasFunc : SimCore<T>
     {
         Ctx& c = ctx();
         if (c.in_nested) return T(0.5) + pt.point()[0];   // the inner integration of a nesting integrand
+        SimCore<T>::maybe_nest(c, pt.point(), 0);
         CallRec& r = this->begin_call(c);
         r.entered = true;
         r.entries = 1;
@@ -398,11 +429,24 @@ struct MultiMap
             for (std::size_t j = 0; j != dens.size(); ++j) dens[j] = T();
         }
 
-        for (std::size_t j : enabled)
+        if (cmap->all)
         {
-            long double d = cmap->jac * cmap->density(static_cast<std::uint32_t>(j), x);
-            if (wpoison && how == 0) d = 0;   // zero density sum
-            dens[j] = static_cast<T>(d);
+            // a map that does not look at the list of enabled channels
+            for (std::size_t j = 0; j != dens.size(); ++j)
+            {
+                long double d = cmap->jac * cmap->density(static_cast<std::uint32_t>(j), x);
+                if (wpoison && how == 0) d = 0;
+                dens[j] = static_cast<T>(d);
+            }
+        }
+        else
+        {
+            for (std::size_t j : enabled)
+            {
+                long double d = cmap->jac * cmap->density(static_cast<std::uint32_t>(j), x);
+                if (wpoison && how == 0) d = 0;   // zero density sum
+                dens[j] = static_cast<T>(d);
+            }
         }
 
         // some maps have points at which one channel's density is infinite (an integrable
@@ -558,6 +602,8 @@ struct MultiFunc : SimCore<T>
             c.note("integrand-without-coordinates");
             return T();
         }
+
+        SimCore<T>::maybe_nest(c, pt.coordinates(), static_cast<std::uint32_t>(pt.channel()));
 
         CallRec& r = c.calls.back();
         r.entered = true;
@@ -909,6 +955,40 @@ public:
             return true;
         }
         return false;
+    }
+
+    template <typename Base, typename Chk>
+    static std::string base_roundtrip_of(Chk const& chk)
+    {
+        try
+        {
+            Base const b(chk);   // slices off the generators
+            std::ostringstream o1;
+            b.serialize(o1);
+            std::istringstream in(o1.str());
+            Base const r(in);
+            if (in.fail()) return "stream failed while reading the checkpoint without generators";
+            std::ostringstream o2;
+            r.serialize(o2);
+            if (o1.str() != o2.str()) return "checkpoint without generators reads back differently";
+            if (r.results().size() != chk.results().size()) return "checkpoint without generators lost results";
+        }
+        catch (std::exception const& e)
+        {
+            return std::string("checkpoint without generators: ") + e.what();
+        }
+        return std::string();
+    }
+
+    std::string base_roundtrip() const override
+    {
+        if (assembled_) return std::string();
+        switch (integ_)
+        {
+        case PLAIN: return pc_ ? base_roundtrip_of<hep::plain_chkpt<T>>(*pc_) : std::string();
+        case VEGAS: return (vc_ && (ran_ || user_state_)) ? base_roundtrip_of<hep::vegas_chkpt<T>>(*vc_) : std::string();
+        default: return (mc_ && (ran_ || user_state_)) ? base_roundtrip_of<hep::multi_channel_chkpt<T>>(*mc_) : std::string();
+        }
     }
 
     bool load(Plan const& p, std::string const& text, LoadInfo& info) override
